@@ -577,7 +577,11 @@ class _Canon(ast.NodeTransformer):
         def _inert(st_):
             return _stmt_inert(st_, self.ref_names, getattr(self, 'inert_calls', ()))
         kept = []
+        keep_inert = os.environ.get('SA_KEEP_INERT') == '1'     # tools/canon_check.py: keep what is written to stderr
         for st in out:
+            if keep_inert:
+                kept.append(st)
+                continue
             if isinstance(st, ast.If) and U(st.test) not in self.tests and _inert(st) and U(st) not in self.stmt_set:
                 # a diagnostic: a pure test guarding nothing but messages on stderr
                 self.steps.append('S10 ' + U(st)[:60])
